@@ -74,6 +74,35 @@ def memory_obligations(ctx: Any, R: str) -> List[Ob]:
     return obs
 
 
+def dispatch_obligations(ctx: Any, R: str, only: str = '') -> List[Ob]:
+    """Where a datagram that passed the duplicate guard goes: a valid response to the record manager, a valid query to the query
+    handler when the registry has entries, everything else nowhere -- decision table of the datagram processor over
+    (decoded correctly, is a query, registry has entries)."""
+    prog = ctx.prog
+    f = prog.func(PD)
+    me = f.params[0]
+    p_data = f.params[4]
+    dispatch = {'async_updates_from_response': 'RESPONSE', 'handle_query_or_defer': 'QUERY'}
+
+    def eff(node: Any, evl: Any) -> List[Any]:
+        return [dispatch[call_name(c)] for c in fd.node_calls(node, evl) if call_name(c) in dispatch]
+
+    obs: List[Ob] = []
+    for valid in (True, False):
+        for query in (True, False):
+            for has in (True, False):
+                if only == 'response' and query:
+                    continue
+                if only == 'query' and not query:
+                    continue
+                atoms = {f'{me}.data == {p_data}': False, f'{p_data} == {me}.data': False, f'{me}.data != {p_data}': True, '.valid': valid, '.is_query()': query, '.has_entries': has, '.has_qu_question()': False}
+                oc, und = traces(ctx, f, atoms, eff)
+                got = {strip_ret(t) for t in oc}
+                want = () if not valid else (('RESPONSE',) if not query else (('QUERY',) if has else ()))
+                obs.append(ob(R, f, f'datagram decoded {"correctly" if valid else "with an error"}, {"query" if query else "response"}, registry {"has entries" if has else "empty"}', f'it is handed to {"nobody" if not want else ("the record manager" if want[0] == "RESPONSE" else "the query handler")}', got == {want} and not [u for u in und if 'len(' not in u and 'debug' not in u], f'dispatched on the feasible paths: {sorted(got)}; undecided {und}'))
+    return obs
+
+
 @rule('C16.GUARD', 'D', expect_min=20)
 def guard(ctx: Any) -> List[Ob]:
     """The duplicate guard of the datagram processor: the test comes before every
